@@ -6,13 +6,14 @@
 (*   contingency/contingency.py run_contingency (outer frame around one runpp per N-1 case).                   *)
 EXTENDS Integers, Sequences, FiniteSets, TLC
 
-Kinds == {"runpp", "rundcpp", "runopp", "rundcopp", "runpp3ph", "sc3ph", "sc2ph", "sc1ph", "contingency"}
+Kinds == {"runpp", "rundcpp", "runopp", "rundcopp", "runpp3ph", "sc3ph", "sc2ph", "sc1ph", "contingency", "estimate"}
 Stages(k) ==
   CASE k \in {"runpp", "rundcpp"}  -> <<"pf.add_aux", "pf.pd2ppc", "pf.solve", "pf.copy_results", "pf.extract", "pf.clean_up">>
     [] k \in {"runopp", "rundcopp"} -> <<"opf.add_aux", "opf.pd2ppc", "opf.solve", "opf.extract", "opf.clean_up">>
     [] k \in {"sc3ph", "sc2ph"}    -> <<"sc.init_ppc", "sc.currents", "sc.extract", "sc.clean_up">>
     [] k = "sc1ph"                 -> <<"sc1.add_aux", "sc1.init_ppc", "sc1.zero_seq", "sc1.currents", "sc1.extract", "sc1.clean_up">>
     [] k = "runpp3ph"              -> <<"pf3.init", "pf3.solve", "pf3.extract", "pf3.clean_up">>
+    [] k = "estimate"              -> <<"se.done">>     \* estimation/state_estimation.py estimate(): no hook inside, one synthetic event on return
     [] k = "contingency"           -> <<"cont.case1", "cont.case2", "cont.n0", "cont.done">>   \* N-1 cases first, N-0 last (contingency.py:99-117)
 AddAux   == {"pf.add_aux", "opf.add_aux", "sc1.add_aux"}
 CleanUp  == {"pf.clean_up", "opf.clean_up", "sc.clean_up", "sc1.clean_up", "pf3.clean_up"}
